@@ -1,4 +1,310 @@
-(* placeholder until the heap-layer theorems land *)
-From HT Require Import Model.Str.
-Example C08_example : str_eqb [97] [97] = true.
-Proof. reflexivity. Qed.
+(* C08  Rendering and tagify are pure and consistent; tagify returns an independent copy.
+
+   Heap layer: Model/Heap.v (objects, alloc, store, abs, reach, wf), Model/HeapOps.v (the
+   operations, written with alloc / store where the Python code creates / assigns).
+   Pure layer: Model/Tree.v, Model/Tagify.v (subst), Model/Render.v; Spec/EqSpec.v (==).
+   In all heap-layer theorems upd, mk, resolve, dep_script, dep_tags are arbitrary: the
+   attribute update of HTMLDocument, dependency resolution and the tags a dependency
+   contributes are not C08's subject and the theorems hold whatever they compute.
+   Dependency INTERNALS are not modelled (OMeta carries an opaque payload): known finding F8
+   lives there. *)
+From Coq Require Import PeanoNat Lia.
+From HT Require Import Model.Str Model.Tree Model.Tagify Model.Render Model.Heap Model.HeapOps
+  Spec.EqSpec Proofs.TagifyProofs Proofs.HeapProofs Proofs.EqProofs.
+
+(* ------------------------------------------------------------------------------------ *)
+(* Purity                                                                               *)
+(* ------------------------------------------------------------------------------------ *)
+
+(* Every operation -- tagify, render, get_html_string, get_dependencies, copy.copy on a Tag
+   or a TagList, HTMLDocument(x, attrs).render() in its three construction cases (lone
+   html tag, lone body tag, anything else; the repaired code), and _hoist_head_content
+   called on its own on any html tag -- returns the old heap with new objects appended:
+   every object that existed before is unchanged. *)
+Theorem C08_alloc_only :
+  forall upd mk resolve dep_script dep_tags fuel h o h' r,
+    run_op upd mk resolve dep_script dep_tags fuel h o = Some (h', r) ->
+    exists ext, h' = h ++ ext.
+Proof. exact run_op_ext. Qed.
+Print Assumptions C08_alloc_only.
+
+(* ... and so does every history of operations. *)
+Theorem C08_alloc_only_history :
+  forall upd mk resolve dep_script dep_tags fuel os h h' rs,
+    run_ops upd mk resolve dep_script dep_tags fuel h os = Some (h', rs) ->
+    exists ext, h' = h ++ ext.
+Proof. exact run_ops_ext. Qed.
+Print Assumptions C08_alloc_only_history.
+
+(* Old locations denote the same tree (or the same failure) whatever is appended. *)
+Theorem C08_abs_frame :
+  forall fuel h ext v,
+    wf h -> val_ok (length h) v -> abs_val fuel (h ++ ext) v = abs_val fuel h v.
+Proof. exact abs_frame_wf. Qed.
+Print Assumptions C08_abs_frame.
+
+(* Replay.  After any history of operations started in a well-formed heap h:
+   (1) the heap is h plus new objects;
+   (2) every value of h denotes what it denoted before, for every fuel;
+   (3) the outcome of each operation (other than HTMLDocument.render, see C08_replay_partial
+       below) -- new objects observed by the trees they denote -- is the pure-layer function
+       pure_op of the tree its receiver denoted in the ORIGINAL heap, wherever the operation
+       stands in the history; in particular
+   (4) it is the outcome the same operation has when run first, on h itself. *)
+Theorem C08_replay :
+  forall upd mk resolve dep_script dep_tags fuel os h h' rs,
+    wf h ->
+    run_ops upd mk resolve dep_script dep_tags fuel h os = Some (h', rs) ->
+    (exists ext, h' = h ++ ext)
+    /\ (forall f v, val_ok (length h) v -> abs_val f h' v = abs_val f h v)
+    /\ Forall2 (fun o r =>
+                  is_doc o = false ->
+                  forall f rt, abs_root f h (op_target o) = Some rt ->
+                    observe f h' r = pure_op upd mk resolve dep_script dep_tags o rt
+                    /\ forall h1 r1,
+                        run_op upd mk resolve dep_script dep_tags fuel h o = Some (h1, r1) ->
+                        observe f h1 r1 = observe f h' r) os rs.
+Proof. exact c08_replay. Qed.
+Print Assumptions C08_replay.
+
+(* ------------------------------------------------------------------------------------ *)
+(* tagify: fresh, independent, the pure substitution                                    *)
+(* ------------------------------------------------------------------------------------ *)
+
+(* Everything reachable from the result of Tag.tagify / TagList.tagify -- the tag objects,
+   their attribute maps, their child lists, the metadata nodes, through any number of levels
+   -- was allocated by the call. *)
+Theorem C08_tagify_fresh :
+  forall fuel h l h' r,
+    tag_tagify fuel h l = Some (h', r) \/ taglist_tagify fuel h l = Some (h', r) ->
+    forall x, reach h' (VRef r) x -> (length h <= x < length h')%nat.
+Proof. exact c08_tagify_fresh. Qed.
+Print Assumptions C08_tagify_fresh.
+
+(* Mutating the copy (a store at any location reachable from it) leaves every tree of the
+   original heap as it was; mutating anything that existed before the call leaves the tree
+   of the copy as it was. *)
+Theorem C08_independent :
+  forall fuel h l h' r,
+    tag_tagify fuel h l = Some (h', r) ->
+    (forall c o f v t,
+        reach h' (VRef r) c -> abs_val f h v = Some t -> abs_val f (store h' c o) v = Some t)
+    /\ (forall c o f,
+           (c < length h)%nat -> abs_val f (store h' c o) (VRef r) = abs_val f h' (VRef r)).
+Proof. exact c08_independent. Qed.
+Print Assumptions C08_independent.
+
+(* The copy denotes the pure-layer substitution of the original: every object replaced by
+   what its tagify() contributes, everything else kept. *)
+Theorem C08_tagify_refines :
+  forall fuel h l h' r f t,
+    tag_tagify fuel h l = Some (h', r) -> abs f h l = Some t ->
+    exists t', subst t = [t'] /\ abs f h' r = Some t'.
+Proof. exact c08_tagify_refines. Qed.
+Print Assumptions C08_tagify_refines.
+
+(* the same for either kind of receiver *)
+Theorem C08_tagify_refines_root :
+  forall fuel h l h' r f rt,
+    tagify_root fuel h l = Some (h', r) -> abs_root f h l = Some rt ->
+    exists rt', root_subst rt = Some rt' /\ abs_root f h' r = Some rt'.
+Proof. exact tagify_root_obs. Qed.
+Print Assumptions C08_tagify_refines_root.
+
+(* Nothing to expand: the copy denotes the same tree. *)
+Theorem C08_tagify_noexp :
+  forall fuel h l h' r f t,
+    tag_tagify fuel h l = Some (h', r) -> abs f h l = Some t -> no_custom t = true ->
+    abs f h' r = Some t.
+Proof. exact c08_tagify_noexp. Qed.
+Print Assumptions C08_tagify_noexp.
+
+(* The result is a fixed point of tagify. *)
+Theorem C08_tagify_idem :
+  forall g1 g2 h l h1 r1 h2 r2 f t,
+    tag_tagify g1 h l = Some (h1, r1) -> abs f h l = Some t ->
+    tag_tagify g2 h1 r1 = Some (h2, r2) ->
+    exists t1, abs f h1 r1 = Some t1 /\ abs f h2 r2 = Some t1.
+Proof. exact c08_tagify_idem. Qed.
+Print Assumptions C08_tagify_idem.
+
+(* copy.copy(tag): a new tag object with its own attribute map and its own child list
+   (assigning to the copy's fields, attributes or child list cannot touch the original),
+   denoting the same tree; the children are shared (a shallow copy). *)
+Theorem C08_copy_shallow :
+  forall h l h' cp,
+    copy_tag h l = Some (h', cp) ->
+    (exists ext, h' = h ++ ext)
+    /\ (exists name ws al kl a items,
+           lookup h' cp = Some (OTag name ws al kl) /\ lookup h' al = Some (OAttrs a)
+           /\ lookup h' kl = Some (OList items)
+           /\ (length h <= cp)%nat /\ (length h <= al)%nat /\ (length h <= kl)%nat
+           /\ exists al0 kl0, lookup h l = Some (OTag name ws al0 kl0)
+                              /\ lookup h al0 = Some (OAttrs a) /\ lookup h kl0 = Some (OList items))
+    /\ forall f t, abs f h l = Some t -> abs f h' cp = Some t.
+Proof. exact c08_copy_shallow. Qed.
+Print Assumptions C08_copy_shallow.
+
+(* ------------------------------------------------------------------------------------ *)
+(* The four string forms                                                                *)
+(* ------------------------------------------------------------------------------------ *)
+
+(* __str__ is _render_tag_or_taglist = render()[html] in the default (invisible) dependency
+   mode, __repr__ and _repr_html_ return str(self): one function. *)
+Theorem C08_str_consistent :
+  forall r : rootv,
+    model_str r = pure_render_html r /\ model_repr r = pure_render_html r
+    /\ model_repr_html r = pure_render_html r.
+Proof. intros r. repeat split; reflexivity. Qed.
+Print Assumptions C08_str_consistent.
+
+(* ... and it is what the heap-level render() returns. *)
+Theorem C08_render_is_str :
+  forall upd mk resolve dep_script dep_tags fuel h l h' s d f rt,
+    run_op upd mk resolve dep_script dep_tags fuel h (OpRender l) = Some (h', RRender s d) ->
+    abs_root f h l = Some rt ->
+    model_str rt = Some s.
+Proof. exact c08_render_is_str. Qed.
+Print Assumptions C08_render_is_str.
+
+(* ------------------------------------------------------------------------------------ *)
+(* ==                                                                                   *)
+(* ------------------------------------------------------------------------------------ *)
+
+(* The model of == answers true exactly on similar trees (same name, same flag, the same
+   attribute map up to insertion order with equal value texts, children pairwise similar,
+   str / HTML children by text), for trees whose attribute maps are dicts. *)
+Theorem C08_eq_reflects :
+  forall x y, dict_ok x -> dict_ok y -> (eqb x y = true <-> sim x y).
+Proof. exact eqb_sim. Qed.
+Print Assumptions C08_eq_reflects.
+
+(* reflexive on trees of tags, text and dependencies; symmetric *)
+Theorem C08_eq_refl_sym :
+  (forall x, dict_ok x -> plain x = true -> eqb x x = true)
+  /\ (forall x y, dict_ok x -> dict_ok y -> eqb x y = eqb y x).
+Proof. split; [exact eqb_refl|exact eqb_sym]. Qed.
+Print Assumptions C08_eq_refl_sym.
+
+(* == is false as soon as the name, the flag, the set of attributes, an attribute value, the
+   number of children or a child differs; false between a tag and anything else; between text
+   children it is equality of the texts. *)
+Theorem C08_eq_discriminates :
+  (forall n w a k n' w' a' k',
+      NoDup (map fst a) -> NoDup (map fst a') ->
+      eqb (TagN n w a k) (TagN n' w' a' k') = true ->
+      n = n' /\ w = w'
+      /\ (forall key, In key (map fst a) <-> In key (map fst a'))
+      /\ (forall key, option_map aval_text (alookup key a) = option_map aval_text (alookup key a'))
+      /\ length k = length k'
+      /\ Forall2 (fun c c' => eqb c c' = true) k k')
+  /\ (forall n w a k y, is_tag y = false -> eqb (TagN n w a k) y = false /\ eqb y (TagN n w a k) = false)
+  /\ (forall s s', eqb (Text s) (Text s') = true <-> s = s').
+Proof. exact c08_eq_discriminates. Qed.
+Print Assumptions C08_eq_discriminates.
+
+(* ------------------------------------------------------------------------------------ *)
+(* Non-vacuity: a heap with aliasing (one tag object in three places, once inside an     *)
+(* object's expansion), a dependency, a plain metadata node                              *)
+(* ------------------------------------------------------------------------------------ *)
+Definition ex_heap : heap :=
+  [ OAttrs [([105;100], AStr [97])];                                  (* 0  {id: a}           *)
+    OList [VText [120]; VRef 5%nat; VRef 3%nat; VRef 4%nat; VRef 5%nat; VRef 8%nat];      (* 1  children of 2     *)
+    OTag [100;105;118] true 0%nat 1%nat;                                      (* 2  <div>, the root   *)
+    OMeta 7;                                                          (* 3  a dependency      *)
+    OCustom None [VRef 5%nat; VHtml [60;98;62]];                          (* 4  an object         *)
+    OTag [101;109] false 6%nat 7%nat;                                         (* 5  <em>, shared      *)
+    OAttrs [];                                                        (* 6                    *)
+    OList [VText [115]];                                              (* 7                    *)
+    OMeta 4 ].                                                        (* 8  a MetadataNode    *)
+
+Definition ex_upd (k : nat) (a : attrs) : attrs := a ++ [([108], AStr [101])].
+Definition ex_mk (k : nat) : attrs := [([108], AStr [101])].
+Definition ex_resolve (d : list N) : list N := d.
+Definition ex_script (d : list N) : str := flat_map dec_of_N d.
+Definition ex_tags (k : nat) (p : N) : list (node N) :=
+  [TagN s_script true [([115;114;99], AStr (dec_of_N p))] []].
+Definition ex_ops : list op :=
+  [OpTagify 2%nat; OpRender 2%nat; OpDoc 2%nat 0%nat; OpHtml 2%nat 1%nat s_nl; OpCopy 2%nat; OpDeps 2%nat; OpTagify 1%nat;
+   OpDoc 1%nat 1%nat; OpRender 2%nat].
+Definition ex_heap_html : heap :=
+  ex_heap ++ [OAttrs []; OList [VRef 2%nat; VRef 3%nat]; OTag s_html true 9%nat 10%nat].
+
+Example C08_wf_nonvacuous : wf ex_heap.
+Proof.
+  unfold wf, ex_heap. repeat constructor; cbn; try lia; eexists; reflexivity.
+Qed.
+
+(* the examples are closed computations (checked by the VM), then read off *)
+Definition ex_run :=
+  Eval vm_compute in run_ops ex_upd ex_mk ex_resolve ex_script ex_tags 9%nat ex_heap ex_ops.
+Definition ex_t := Eval vm_compute in abs 9%nat ex_heap 2%nat.
+Definition ex_tagified := Eval vm_compute in tag_tagify 9%nat ex_heap 2%nat.
+Definition ex_t' :=
+  Eval vm_compute in match ex_tagified with Some (h', r) => abs 9%nat h' r | None => None end.
+Definition ex_twice :=
+  Eval vm_compute in
+    match ex_tagified with Some (h', r) => tag_tagify 9%nat h' r | None => None end.
+
+(* a history of nine operations (all six kinds, both receivers, two document variants)
+   succeeds on the example heap, whose root and child list denote trees *)
+Example C08_alloc_only_nonvacuous :
+  run_ops ex_upd ex_mk ex_resolve ex_script ex_tags 9%nat ex_heap ex_ops = ex_run
+  /\ option_map (fun p => length (snd p)) ex_run = Some 9%nat
+  /\ abs 9%nat ex_heap 2%nat = ex_t /\ ex_t <> None
+  /\ abs_root 9%nat ex_heap 1%nat <> None.
+Proof.
+  split; [vm_compute; reflexivity|]. split; [vm_compute; reflexivity|].
+  split; [vm_compute; reflexivity|]. split; vm_compute; discriminate.
+Qed.
+
+(* tagify succeeds; the copy denotes the substitution, which differs from the original
+   (an object is expanded) *)
+Example C08_tagify_nonvacuous :
+  tag_tagify 9%nat ex_heap 2%nat = ex_tagified /\ ex_tagified <> None
+  /\ option_map subst ex_t = option_map (fun t' => [t']) ex_t' /\ ex_t' <> None
+  /\ ex_t <> ex_t' /\ option_map no_custom ex_t = Some false.
+Proof.
+  split; [vm_compute; reflexivity|]. split; [vm_compute; discriminate|].
+  split; [vm_compute; reflexivity|]. split; [vm_compute; discriminate|].
+  split; [vm_compute; discriminate|vm_compute; reflexivity].
+Qed.
+
+(* _hoist_head_content on an html tag holding the example tree and the dependency *)
+Example C08_hoist_nonvacuous :
+  run_op ex_upd ex_mk ex_resolve ex_script ex_tags 9%nat ex_heap_html (OpHoist 11%nat 0%nat) <> None.
+Proof. vm_compute. discriminate. Qed.
+
+(* the shared <em> has nothing to expand *)
+Example C08_tagify_noexp_nonvacuous :
+  tag_tagify 9%nat ex_heap 5%nat <> None
+  /\ option_map no_custom (abs 9%nat ex_heap 5%nat) = Some true.
+Proof. split; [vm_compute; discriminate|vm_compute; reflexivity]. Qed.
+
+Example C08_tagify_idem_nonvacuous :
+  ex_tagified <> None /\ ex_twice <> None
+  /\ match ex_twice with Some (h2, r2) => abs 9%nat h2 r2 | None => None end = ex_t'.
+Proof.
+  split; [vm_compute; discriminate|]. split; [vm_compute; discriminate|vm_compute; reflexivity].
+Qed.
+
+Example C08_copy_nonvacuous : copy_tag ex_heap 2%nat <> None.
+Proof. vm_compute. discriminate. Qed.
+
+(* render() of the root: markup, and the one dependency *)
+Example C08_render_is_str_nonvacuous :
+  match run_op ex_upd ex_mk ex_resolve ex_script ex_tags 9%nat ex_heap (OpRender 2%nat) with
+  | Some (_, RRender (Ok _) d) => d = [7]
+  | _ => False
+  end.
+Proof. vm_compute. reflexivity. Qed.
+
+Example C08_eq_nonvacuous :
+  let x := TagN [97] true [([105], AStr [49]); ([106], AHtml [50])] [Text [120]; Html [121]] in
+  let y := TagN [97] true [([106], AStr [50]); ([105], AStr [49])] [Html [120]; Text [121]] in
+  dict_ok x /\ dict_ok y /\ plain x = true /\ eqb x y = true /\ eqb y x = true
+  /\ eqb x (TagN [97] true [([105], AStr [49])] [Text [120]; Html [121]]) = false.
+Proof.
+  cbn zeta. repeat split; try reflexivity; cbn;
+    repeat constructor; cbn; intuition discriminate.
+Qed.
